@@ -12,8 +12,15 @@ release paths of `orchestrate.as_completed` / `_async_run_single_stage`.
   Each thread is inside at most one `Worker` method (`Call`, with a program point `MPc`), with a
   pool-level continuation `K` saying what the enclosing pool operation does with the returned value.
 * **One step = one shared access**: acquiring / releasing `_states_lock`, `Lock.acquire(False)`,
-  `Lock.release()`, one read of `_lock.locked()`, one read or write of `_worker_pool`, or one
-  evaluation of `has_capacity and is_alive` (an oracle `usable`, free to change at every step).
+  `Lock.release()`, one read of `_lock.locked()`, one read or write of `_worker_pool`.
+  `worker.has_capacity and worker.is_alive` is NOT one step (round 5, exposed by the schedule replay
+  of the real code): `has_capacity` (→ `pendings`) and `is_alive` each take the worker's
+  `_states_lock` — the lock `acquire_by` / `release` / `call` use — so each is a critical section
+  `cEnter; cExit` / `iEnter; iExit` that can block, and be blocked by, the ownership methods; the
+  second one is skipped when the first returns `False`.  The *values* they return come from an
+  oracle `u` (free to change at every step) consulted at `cExit` / `iExit`; `Model/OwnerEnv.lean`
+  instantiates it with the registry / heartbeat / pending-call state (and adds the registry-lock
+  micro-steps inside `is_alive`).  `Worker.call` (`kEnter; kExit`) takes the same lock.
   Thread-local code between two accesses is fused into the preceding step.
 * `step? pw u c t` is deterministic once the thread `t` (and the oracle `u`) is chosen, so a schedule
   `List (Tid × oracle)` replays an interleaving exactly (`runSched`).
@@ -22,8 +29,7 @@ Composite operations are scripts of primitives ending in `Op.finalize p` (= the 
 release_all()`): `runScript`, `callAndWaitScript`, `asCompletedScript` below.  A raise or an early
 `close()` of the generator truncates the body — the finaliser still runs.
 
-Blocking acquisition (`acquire_by(blocking=True)`, no caller in the repo), and the `RLock` taken by
-`is_alive` inside the oracle are not modelled.
+Blocking acquisition (`acquire_by(blocking=True)`, no caller in the repo) is not modelled.
 -/
 namespace MlModel.Owner
 
@@ -58,8 +64,12 @@ inductive MPc where
   | vRdLocked | vRdPool
   -- is_locked(pool), 190–194
   | lRdLocked | lRdPool
-  -- `worker.has_capacity and worker.is_alive`
-  | uRd
+  -- `worker.has_capacity` → `pendings` (courier_utils.py:642–646): `with self._states_lock: [...]`
+  | cEnter | cExit
+  -- `worker.is_alive` (courier_utils.py:632–640): `with self._states_lock:` fold, verdict, maybe ping
+  | iEnter | iExit
+  -- `worker.call(...)` (courier_utils.py:648–657): `with self._states_lock:` submit + remember the pending
+  | kEnter | kExit
   deriving DecidableEq, Repr
 
 /-- An activation of a `Worker` method by a thread acting for pool `p`. -/
@@ -106,7 +116,12 @@ def mstep (u : Wid → Bool) (W : Wid → Worker) (t : Tid) (cl : Call) : Option
   | .vRdPool => some (W, .ret (x.pool == some cl.p))
   | .lRdLocked => some (W, if x.lock then .goto .lRdPool else .ret false)
   | .lRdPool => some (W, .ret (x.pool == some cl.p))
-  | .uRd => some (W, .ret (u cl.w))
+  | .cEnter => if x.sl = none then some (upd W cl.w { x with sl := some t }, .goto .cExit) else none
+  | .cExit => some (upd W cl.w { x with sl := none }, .ret (u cl.w))
+  | .iEnter => if x.sl = none then some (upd W cl.w { x with sl := some t }, .goto .iExit) else none
+  | .iExit => some (upd W cl.w { x with sl := none }, .ret (u cl.w))
+  | .kEnter => if x.sl = none then some (upd W cl.w { x with sl := some t }, .goto .kExit) else none
+  | .kExit => some (upd W cl.w { x with sl := none }, .ret true)
 
 /-- Pool-level operations (the alphabet of scripts). -/
 inductive Op where
@@ -116,11 +131,13 @@ inductive Op where
   | releaseOne (p : Pid) (w : Wid) (checked : Bool)      -- `w.release(pool)`; unchecked = old `w.release()`
   | releaseAllOrig (p : Pid) (ws : List Wid)             -- unchanged `release_all`: check outside the lock
   | finalize (p : Pid)                                   -- `finally: release_all()` ending a pool operation
+  | idleWorkers (p : Pid)                                -- `idle_workers()` (what `WorkerPool.iterate` polls; acquires nothing)
+  | callW (p : Pid) (w : Wid)                            -- `w.call(...)` by a thread acting for `p` (the body of `run` / `call_and_wait`)
   deriving DecidableEq, Repr
 
 def Op.pool : Op → Pid
   | .acquireAll p _ _ | .releaseAll p _ | .nextIdle p _ _ | .releaseOne p _ _
-  | .releaseAllOrig p _ | .finalize p => p
+  | .releaseAllOrig p _ | .finalize p | .idleWorkers p | .callW p _ => p
 
 /-- Operations of the repaired code (every release is owner-checked under the lock). -/
 def Op.repaired : Op → Bool
@@ -136,15 +153,21 @@ inductive K where
   | origA (p : Pid) (w : Wid) (rest : List Wid)                   -- awaiting `w.is_available(self)` (old release_all)
   | origB (p : Pid) (rest : List Wid)                             -- awaiting `w.release()`
   | next1L (p : Pid) (w : Wid) (rest unacq : List Wid) (acq : Bool)  -- awaiting `w.is_locked(self)`
-  | next1U (p : Pid) (w : Wid) (rest unacq : List Wid) (acq : Bool)  -- awaiting capacity/alive of a held worker
+  | next1U (p : Pid) (w : Wid) (rest unacq : List Wid) (acq : Bool)  -- awaiting `w.is_alive` of a held worker
   | next2A (p : Pid) (w : Wid) (rest : List Wid)                  -- awaiting `w.acquire_by(self)`
-  | next2U (p : Pid) (w : Wid) (rest : List Wid)                  -- awaiting capacity/alive after acquiring
-  | relOne (p : Pid)
+  | next2U (p : Pid) (w : Wid) (rest : List Wid)                  -- awaiting `w.is_alive` after acquiring
+  | relOne (p : Pid)                                              -- awaiting a method whose value is ignored (`release`, `call`)
+  | next1C (p : Pid) (w : Wid) (rest unacq : List Wid) (acq : Bool)  -- awaiting `w.has_capacity` of a held worker
+  | next2C (p : Pid) (w : Wid) (rest : List Wid)                  -- awaiting `w.has_capacity` after acquiring
+  | idleA (p : Pid) (w : Wid) (rest acc : List Wid)               -- `idle_workers`: awaiting `w.is_available(self)`
+  | idleC (p : Pid) (w : Wid) (rest acc : List Wid)               -- … `w.has_capacity`
+  | idleU (p : Pid) (w : Wid) (rest acc : List Wid)               -- … `w.is_alive`
   deriving DecidableEq, Repr
 
 def K.pool : K → Pid
   | .acqAllA p .. | .acqAllB p .. | .relAll p .. | .origA p .. | .origB p .. | .next1L p ..
-  | .next1U p .. | .next2A p .. | .next2U p .. | .relOne p => p
+  | .next1U p .. | .next2A p .. | .next2U p .. | .relOne p
+  | .next1C p .. | .next2C p .. | .idleA p .. | .idleC p .. | .idleU p .. => p
 
 /-- Value returned by a finished pool operation. -/
 inductive Res where
@@ -189,6 +212,12 @@ def next1Loop (p : Pid) (acq : Bool) : List Wid → List Wid → Next
   | [], unacq => next2Loop p unacq
   | w :: rest, unacq => .call ⟨w, p, .lRdLocked, true⟩ (.next1L p w rest unacq acq)
 
+/-- `idle_workers` loop head (courier_worker.py:341–347):
+`[w for w in self._workers if w.is_available(self) and w.has_capacity and w.is_alive]`. -/
+def idleLoop (p : Pid) : List Wid → List Wid → Next
+  | [], acc => .finish (.workers acc.reverse) none
+  | w :: rest, acc => .call ⟨w, p, .vRdLocked, true⟩ (.idleA p w rest acc)
+
 /-- Resume the pool operation with the value `b` returned by the `Worker` method. -/
 def resume : K → Bool → Next
   | .acqAllA p w rest acc n, b =>
@@ -198,13 +227,19 @@ def resume : K → Bool → Next
   | .origA p w rest, b => if b then .call ⟨w, p, .rEnter, false⟩ (.origB p rest) else origLoop p rest
   | .origB p rest, _ => origLoop p rest
   | .next1L p w rest unacq acq, b =>
-    if b then .call ⟨w, p, .uRd, true⟩ (.next1U p w rest unacq acq)
+    if b then .call ⟨w, p, .cEnter, true⟩ (.next1C p w rest unacq acq)
     else next1Loop p acq rest (if acq then unacq ++ [w] else unacq)
   | .next1U p w rest unacq acq, b =>
     if b then .finish (.worker (some w)) none else next1Loop p acq rest unacq
-  | .next2A p w rest, b => if b then .call ⟨w, p, .uRd, true⟩ (.next2U p w rest) else next2Loop p rest
+  | .next2A p w rest, b => if b then .call ⟨w, p, .cEnter, true⟩ (.next2C p w rest) else next2Loop p rest
   | .next2U p w rest, b => if b then .finish (.worker (some w)) none else next2Loop p rest
   | .relOne _, _ => .finish .unit none
+  | .next1C p w rest unacq acq, b =>
+    if b then .call ⟨w, p, .iEnter, true⟩ (.next1U p w rest unacq acq) else next1Loop p acq rest unacq
+  | .next2C p w rest, b => if b then .call ⟨w, p, .iEnter, true⟩ (.next2U p w rest) else next2Loop p rest
+  | .idleA p w rest acc, b => if b then .call ⟨w, p, .cEnter, true⟩ (.idleC p w rest acc) else idleLoop p rest acc
+  | .idleC p w rest acc, b => if b then .call ⟨w, p, .iEnter, true⟩ (.idleU p w rest acc) else idleLoop p rest acc
+  | .idleU p w rest acc, b => idleLoop p rest (if b then w :: acc else acc)
 
 /-- Begin an operation (`pw p` = `pool._workers`). -/
 def start (pw : Pid → List Wid) : Op → Next
@@ -214,6 +249,8 @@ def start (pw : Pid → List Wid) : Op → Next
   | .releaseOne p w c => .call ⟨w, p, .rEnter, c⟩ (.relOne p)
   | .releaseAllOrig p ws => origLoop p (if ws.isEmpty then pw p else ws)
   | .finalize p => relAllLoop p true (pw p)
+  | .idleWorkers p => idleLoop p (pw p) []
+  | .callW p w => .call ⟨w, p, .kEnter, true⟩ (.relOne p)
 
 structure Thread where
   script : List Op := []
